@@ -3,8 +3,11 @@
    Clock/MidiInProofs.v.  Models: Clock/Multiplier.v (make_clock_multiplier, Timeline.tick device-clock phase),
    Clock/ClockRun.v (Clock.run), Clock/MidiIn.v (MidiInputDevice._callback).
    Rates are positive integers below 10^8 (S8); time is exact (integers in an arbitrary unit). *)
+From Coq Require Import QArith.
 From Isobar Require Import Base.Prelude Clock.Multiplier Clock.MultiplierProofs
-     Clock.ClockRun Clock.ClockRunProofs Clock.MidiIn Clock.MidiInProofs.
+     Clock.ClockRun Clock.ClockRunProofs Clock.MidiIn Clock.MidiInProofs
+    Clock.MidiInTimed Clock.MidiInTimedProofs.
+Local Open Scope Z_scope.
 
 Lemma multiple_of_some a b : 0 < a -> 0 < b -> multiple_of (Some a) (Some b) = (a, b).
 Proof.
@@ -246,6 +249,52 @@ Proof.
 Qed.
 Print Assumptions C14_midi_timeline.
 
+(** 3b. ... with the wall clock the callback reads (time.time(), for the tempo estimate) as part of the history.
+    `TM t1 t2 m` = message m handled while time.time() returned t1, then t2: ANY integers (microseconds or hours
+    apart, equal = time standing still, decreasing = clock set back), any unit, any estimator state. *)
+
+(* whatever the readings: message by message the calls on the clock target are those of the untimed model; hence
+   exactly one tick() per 'clock' message, and two histories with the same messages but different timing make the
+   same calls *)
+Theorem C14_midi_in_timed : forall unit ht s xs,
+  map fst (cb_run unit ht s xs) = map (target_calls ht) (map msg_of xs)
+  /\ timed_calls unit ht s xs = midi_in_calls ht (map msg_of xs)
+  /\ count_call CTick (timed_calls unit true s xs) = count_if is_clock (map msg_of xs)
+  /\ timed_calls unit false s xs = [].
+Proof.
+  intros unit ht s xs. split; [apply cb_run_calls | split; [apply timed_calls_untimed | apply timed_tick_count]].
+Qed.
+Print Assumptions C14_midi_in_timed.
+
+Theorem C14_midi_in_time_irrelevant : forall u1 u2 ht s1 s2 xs ys,
+  map msg_of xs = map msg_of ys ->
+  map fst (cb_run u1 ht s1 xs) = map fst (cb_run u2 ht s2 ys).
+Proof. exact cb_run_time_irrelevant. Qed.
+Print Assumptions C14_midi_in_time_irrelevant.
+
+(* the estimate (`MidiInputDevice.tempo`): on a fresh device the first 'clock' arms the estimator; if every later
+   'clock' follows the previous one after exactly d > 0 units, every estimate from the second 'clock' on is exactly
+   2.5 * unit / d beats per minute (24 clocks per beat), whatever other messages are interleaved *)
+Theorem C14_midi_tempo_steady : forall pre unit ht d t0 t0' xs,
+  0 <= unit -> 0 < d -> no_clock pre = true ->
+  intervals_within d d t0 xs ->
+  Forall (fun oe => exists e, oe = Some e /\ (e == tick_estimate unit d)%Q)
+         (tl (clock_estimates (pre ++ TM t0 t0' Clock :: xs) (cb_run unit ht ts0 (pre ++ TM t0 t0' Clock :: xs)))).
+Proof. exact est_steady_fresh. Qed.
+Print Assumptions C14_midi_tempo_steady.
+
+(* if every interval between consecutive 'clock' messages lies in [lo, hi] (0 < lo), every estimate lies between the
+   tempi of the slowest and of the fastest interval: one odd interval cannot throw the estimate out of that range *)
+Theorem C14_midi_tempo_bounded : forall xs unit ht lo hi l s,
+  0 <= unit -> 0 < lo <= hi ->
+  intervals_within lo hi l xs ->
+  last_clock s = Some l ->
+  est_within (tick_estimate unit hi) (tick_estimate unit lo) (est s) ->
+  Forall (est_is_within (tick_estimate unit hi) (tick_estimate unit lo))
+         (clock_estimates xs (cb_run unit ht s xs)).
+Proof. exact est_bounded. Qed.
+Print Assumptions C14_midi_tempo_bounded.
+
 (** ---------------------------------------------------------------------------------------------
     The closed-form variants evaluated by the correspondence harness ARE the models above
     --------------------------------------------------------------------------------------------- *)
@@ -286,3 +335,14 @@ Example C14_midi_nonvacuous :
   /\ midi_tl_run (tl_new [Some 12; None]) 0 [Clock; Clock; SongPos 0; Clock]
      = ([([0; 1], 1); ([1], 2); ([], 0); ([0; 1], 1)], TLOk).
 Proof. vm_compute. repeat split. Qed.
+
+(* a clock at 120 bpm (d = 2^20/48 units would not be whole: 100 units = 2.5*unit/d bpm), a pause of an hour, time
+   standing still and time going backwards: one tick per 'clock' all the same; the estimate on the steady stretch *)
+Example C14_midi_timed_nonvacuous :
+  map call_code (timed_calls 1000 true ts0
+     [TM 0 0 Clock; TM 20 20 Clock; TM 25 25 Stop; TM 3600000 3600000 Clock; TM 3600000 3600000 Clock;
+      TM 3599000 3599001 Clock; TM 3599021 3599021 Start]) = [0; 0; 2; 0; 0; 0; 1]
+  /\ intervals_within 20 20 0 [TM 20 20 Clock; TM 30 30 (NoteLike 1); TM 40 40 Clock]
+  /\ map (fun p => option_map Qred (snd p)) (cb_run 1000 true ts0 [TM 0 0 Clock; TM 20 20 Clock; TM 30 30 (NoteLike 1); TM 40 40 Clock])
+     = [None; Some (125 # 1)%Q; Some (125 # 1)%Q; Some (125 # 1)%Q].
+Proof. split; [vm_compute; reflexivity | split; [cbn; lia | vm_compute; reflexivity]]. Qed.
